@@ -89,6 +89,8 @@ def generate(ck):
                 t = {"kind": "synthetic", "family": str(rng.choice(["constant", "linear", "kinked"])), "prm": [float(v) for v in rng.random(3)], "n": int(rng.choice([8, 40, 300])), "p_lo": float(rng.uniform(10, 150)), "p_hi": float(rng.uniform(9500, 12000)), "grid": str(rng.choice(["uniform", "nonuniform"])), "seed": int(rng.integers(0, 10**6)), "Sw": base["Sw"]}
             if t["kind"] == "synthetic" and t["seed"] % 4 == 2:
                 t["family"] = "condensate"  # rows with So exactly 0 whose gas carries vaporised oil (no draw consumed)
+            if t["kind"] == "synthetic" and t["seed"] % 4 == 1:
+                t["family"] = "rv-onset"  # Rv exactly 0 over the lower part of the table
             descs.append(dict(base, kind="table", table=t, relperm=[float(rng.choice([1.0, 2.0, 2.5])), 2.0, float(rng.choice([1.0, 3.0])), float(rng.uniform(0, 0.1)), float(base["Sw"] + rng.uniform(0, 0.1)), float(rng.uniform(0, 0.1)), 1.0, float(rng.uniform(0.2, 1)), float(rng.uniform(0.5, 1))]))
     # one phase untracked while the tracked ones are light: a stand-in density for the untracked phase (1.0,
     # say) would dominate storage and mobility instead of hiding inside the tolerance
@@ -287,6 +289,34 @@ def run_case(ck, desc):
     elif not ck.margin("table: Richardson difference of documented storage", e, 5e-4):
         k = int(np.argmax(np.abs(got - want) / scale))
         ck.violation("equals-finite-difference-of-documented-storage", {"p": pe[k], "got": got[k], "want": want[k], "rel": e}, desc)
+    # pressures ON rows and a third of a psi beside them (the onset of vaporised oil, the bubble point, any
+    # row): the function's +-0.5 psi stencil straddles the kink there. Each one is asked alone (scalar and
+    # one-element array) and inside a batch with the others: same value, and that value is the +-0.5 psi
+    # difference of the documented storage
+    if not const_tab and len(P) >= 6:
+        rv_ = cols["Rv"]
+        on_ = int(np.argmax(rv_ > 0)) if np.any(rv_ > 0) and rv_[0] == 0 else len(P) // 3
+        sel_ = sorted({max(1, on_ - 1), max(1, on_), min(len(P) - 2, on_ + 1), len(P) // 2, len(P) - 2})
+        pn = np.array([P[k_] + d_ for k_ in sel_ for d_ in (-0.3, 0.0, 0.3)])
+        pn = pn[(pn > P[0] + 0.6) & (pn < P[-1] - 0.6)]
+        if len(pn) >= 2:
+            son = np.interp(pn, P, cols["So"])
+            with np.errstate(all="ignore"):
+                batch_ = np.asarray(fp.compressibility_combined_func(pn, son, phi, Sw, pvt_lib), dtype=float)
+                alone_ = np.array([float(fp.compressibility_combined_func(float(x_), float(s_), phi, Sw, pvt_lib)) for x_, s_ in zip(pn, son)])
+                alone1_ = np.array([float(np.asarray(fp.compressibility_combined_func(np.array([x_]), np.array([s_]), phi, Sw, pvt_lib)).reshape(-1)[0]) for x_, s_ in zip(pn, son)])
+            own_ = storage(pn + 0.5, son, phi, Sw, own, dens) - storage(pn - 0.5, son, phi, Sw, own, dens)
+            sc_ = np.abs(own_) + 1e-9 * np.abs(storage(pn, son, phi, Sw, own, dens))
+            ck.count("compressibility_calls_on_and_beside_rows", 3 * len(pn))
+            for label_, v_ in (("scalar", alone_), ("one-element array", alone1_)):
+                e_ = float(np.max(np.abs(v_ - batch_) / sc_))
+                if not ck.margin("a cell alone = the same cell inside a batch", e_, 1e-12):
+                    k_ = int(np.argmax(np.abs(v_ - batch_) / sc_))
+                    ck.violation("same-value-alone-and-in-a-batch", {"asked_as": label_, "p": float(pn[k_]), "alone": float(v_[k_]), "in_batch": float(batch_[k_]), "Rv_there": float(np.interp(pn[k_], P, rv_))}, desc)
+            e_ = float(np.max(np.abs(alone_ - own_) / sc_))
+            if not ck.margin("on and beside rows: c = +-0.5 psi difference of documented storage", e_, 1e-9):
+                k_ = int(np.argmax(np.abs(alone_ - own_) / sc_))
+                ck.violation("equals-finite-difference-of-documented-storage", {"p": float(pn[k_]), "asked": "alone, on or beside a row", "got": float(alone_[k_]), "want": float(own_[k_]), "rel": e_}, desc)
     # total mobility follows the documented sum
     kr_own = {k: (lambda s, k=k: np.interp(s, np.asarray(df_kr["So"]), np.asarray(df_kr[k]))) for k in ("kro", "krg", "krw")}
     ro, rg, rw = dens
